@@ -85,7 +85,12 @@ RULE = ("cases = (record family: white/coloured/offset+trend/correlated inputs, 
         "VERIF_SEED (4 consecutive seeds = backend x order x scheduler), window (default/kaiser by name, psll 40..200, hann), olap (default, 0..0.75), "
         "band, bmin, Lmin, Kdes, num_patch_pts drawn per group; one group = the same records and options under every backend: all sub-claims per "
         "backend + backend independence of the residual within the kernels' rounding budget; distinct by (sub-check, solver, q, coupling, order, "
-        "scheduler, backend)")
+        "scheduler, backend); units stream (every run): q = 1 (SISO, numeric, analytic) and q = 2 (numeric, analytic) short record sets (N 500..900, "
+        "Jdes 5..10, order / scheduler / window / olap / band drawn) analysed as they are and with ONE input / ALL inputs / the OUTPUT / ALL channels "
+        "multiplied by 2^e, e = -40 and +40 always plus one exponent from +-3..39 or +-60..120 per kind (one input among q >= 2: 2^+-8, 2^+-(2..12)), "
+        "amplitudes within [1e-60, 1e55]: all sub-claims on the scaled data (incl. Gyy*(1-coh) of an independent compute_spectrum, SISO = MISO, exact "
+        "combination -> 0 relative to the output, at the scaled or at the original size) + residual(scaled) = s_out^2 residual(original); distinct by "
+        "(solver, q, kind, direction, far, order, scheduler); q = 1 re-mix of the generated cases also through the SISO entry point")
 
 U = 2.0 ** -53
 ETA = 1e-9          # power-like comparisons: |a - b| <= ETA * B, B = S00 + 2 sum|H_i||S_i| + sum|H_j||H_i||T_ji| (magnitude of the formula's terms)
@@ -214,6 +219,10 @@ def case_desc(c) -> Dict[str, Any]:
         d.update({"stream": "repr", "reps_in": list(c["reps_in"]), "rep_out": c["rep_out"], "as_tuple": bool(c["as_tuple"])})
     if c.get("stream") == "sweep":
         d.update({"stream": "sweep", "group_backends": list(c.get("group_backends", []))})
+        if "band" in d["kw"]:
+            d["kw"]["band"] = [float(t) for t in d["kw"]["band"]]
+    if c.get("stream") == "units":
+        d.update({"stream": "units", "units_t": (dict(c["units_t"]) if c.get("units_t") else None)})
         if "band" in d["kw"]:
             d["kw"]["band"] = [float(t) for t in d["kw"]["band"]]
     return d
@@ -831,7 +840,8 @@ class Checker:
             for name, xv, M in variants:
                 ingv = ing.remixed(M)
                 P.unstable += int((ing.good & ~ingv.good).sum())
-                for sv in self.solvers_for(q):
+                # q = 1: the single-input entry point is re-mixed too (A = [[a]]: the input recorded in other units; wave-8 miss C15h)
+                for sv in self.solvers_for(q) + (["siso"] if (q == 1 and name == "remix") else []):
                     if sv not in res or (variant_solvers is not None and sv not in variant_solvers):
                         continue
                     g = ing.mask(sv) & ingv.mask(sv)
@@ -1563,6 +1573,210 @@ def sweep_stream(ck: "Checker", ctx, seed: int, intensive: bool) -> None:
 
 
 
+# ------------------------------------------------------------------------------------------------ units stream (pure rescaling of channels)
+# "Unchanged by invertibly re-mixing the inputs" includes the simplest re-mixing of all: ONE input recorded in other units (A = diag(1, .., s, .., 1)),
+# and the property quantifies over all RECORDS, whatever their physical scale (nanometres expressed in metres, strain, counts of a 24-bit ADC).
+# The generated cases above use unit-scale records (family "scaled": 1e-3 .. 1e3) and re-mix the MISO solvers only, so that an ABSOLUTE threshold /
+# regulariser / clip anywhere in the chain (wave-8 miss C15h: GyySx = Gyy - |Gxy|^2/Gxx with the guard where=(Gxx > eps): nothing subtracted once
+# the input's PSD is below 2.2e-16) was never reached.  This stream is SYSTEMATIC: on every run, for q = 1 (SISO, numeric, analytic) and q = 2
+# (numeric, analytic) one short record set is analysed as it is and again with ONE input / ALL inputs / the OUTPUT / ALL channels multiplied by
+# 2^e — a power of two, so that the scaled record holds exactly s times the values and every spectrum of the chain is s^2 (s) times the original
+# one to the last bit as long as nothing under/overflows: e = -40 and +40 (9.1e-13, 1.1e12) always, one more exponent per kind drawn from
+# +-3..39 or +-60..120 (1e+-18 .. 1e+-36); one input among q >= 2 by 2^+-8 and 2^+-(2..12) only (cond(T) grows like s^-2: bins with cond > 1e8 are
+# outside the claim, see ASSUMPTIONS).  Amplitudes stay within [1e-60, 1e55] (known finding D11: coherence NaN below 1e-85 / above 1e78, C13's).
+# Demanded of every scaled set: ALL sub-claims of check_case on the scaled data themselves (bound, least-squares optimum of independently computed
+# spectra of the scaled records, analytic = numeric, and for q = 1 Gyy*(1-coh) of an independent compute_spectrum and SISO = MISO), the exact static
+# combination of the scaled inputs -> 0 relative to that OUTPUT's own spectrum (output at the inputs' scale or, `comp`, at the original scale),
+# and residual(scaled) = s_out^2 * residual(original) within ETA*(B' + s_out^2 B)  (B is invariant under diagonal rescaling of the inputs).
+UNIT_E_MAIN = 40            # 2^40 = 1.1e12
+UNIT_E_FAR = (60, 120)      # 2^60 = 1.2e18 .. 2^120 = 1.3e36
+UNIT_E_ONE = 8              # one input among q >= 2: 2^8 = 256 (cond(T) x 6.6e4)
+AMP_MIN, AMP_MAX = 1e-60, 1e55
+
+
+def build_units_case(sub_seed: int, q: int, thorough: bool = False) -> Dict[str, Any]:
+    """short records of ordinary scale (amplitudes 1e-2 .. 1e2, different per channel), couplings with gain + delay / FIR, independent noise of
+    0.03 .. 3x the coupled part, an option set including order / scheduler; everything from sub_seed"""
+    rng = np.random.default_rng(int(sub_seed))
+    N = int(rng.integers(500, 901))
+    fs = float(rng.choice([1.0, 2.0, 100.0, float(rng.uniform(0.5, 50.0))]))
+    cpl = str(rng.choice(COUPLINGS))
+    us = []
+    for i in range(q):
+        v = rng.standard_normal(N)
+        if rng.random() < 0.4:
+            v = _colour(rng, v)
+        v = v / max(float(np.std(v)), 1e-300)
+        if i and rng.random() < 0.5:
+            v = v + float(rng.uniform(0.3, 0.8)) * us[0]              # correlated inputs
+        us.append(v)
+    a0 = float(10.0 ** rng.uniform(-2, 2))
+    amps = [a0 * float(10.0 ** rng.uniform(-0.5, 0.5)) for _ in range(q)]           # comparable sizes: cond(T) of the original set stays moderate
+    offs = [float(rng.uniform(-3, 3)) if rng.random() < 0.25 else 0.0 for _ in range(q)]
+    xs = [a * (v + o) for a, v, o in zip(amps, us, offs)]
+    sig = np.zeros(N)
+    for v in us:
+        g = float(rng.choice([-1.0, 1.0]) * 10.0 ** rng.uniform(-0.7, 0.5))
+        if cpl == "static":
+            w = v
+        elif cpl == "delay":
+            w = np.roll(v, int(rng.integers(1, 6)))
+        else:
+            w = np.convolve(v, rng.standard_normal(3), mode="full")[:N]
+        sig = sig + g * w
+    noise_rel = float(rng.choice([0.03, 0.3, 1.0, 3.0]))
+    y = float(10.0 ** rng.uniform(-2, 2)) * (sig + noise_rel * float(np.std(sig)) * rng.standard_normal(N))
+    kw = _draw_sweep_kw(rng, fs)
+    kw["order"] = int(rng.choice(ORDERS))
+    kw["scheduler"] = str(rng.choice(SCHEDS_ALL))
+    coeffs = [float(rng.choice([-1.0, 1.0]) * 10.0 ** rng.uniform(-1, 1)) for _ in range(q)]
+    A = np.eye(q)
+    perm = [int(p) for p in rng.permutation(q)]
+    return {"stream": "units", "sub_seed": int(sub_seed), "q": q, "N": N, "fs": fs, "family": "units", "coupling": cpl, "xs": xs, "y": y, "kw": kw,
+            "coeffs": coeffs, "A": A, "perm": perm, "noise_rel": noise_rel, "big": bool(thorough), "units_t": None}
+
+
+def units_fit_plan(c: Dict[str, Any]) -> None:
+    """at most 40 bins (new_ltf returns > 100 for some N / fs whatever the optional keys): sweep_fit_plan, then the other schedulers in turn
+    (deterministic: depends on the case only; the kw actually used are stored in the replay)"""
+    from speckit.analysis import SpectrumAnalyzer
+    first = c["kw"].get("scheduler")
+    for sch in [first] + [s_ for s_ in ("ltf", "vectorized_ltf", "lpsd") if s_ != first]:
+        c["kw"]["scheduler"] = sch
+        sweep_fit_plan(c)
+        try:
+            nf = len(SpectrumAnalyzer(np.asarray(c["y"]), c["fs"], **c["kw"]).plan()["f"])
+        except Exception:
+            continue
+        if 1 <= nf <= 40:
+            return
+
+
+def units_tag(t: Dict[str, Any]) -> str:
+    return f"{t['kind']}" + (f"[{t['j']}]" if t["kind"] == "one_input" else "") + f"*2^{t['e']}" + ("c" if t.get("comp") else "")
+
+
+def units_transform(c0: Dict[str, Any], t: Dict[str, Any]) -> Optional[Dict[str, Any]]:
+    """the case with the channels of t["kind"] multiplied by 2^t["e"] (exact); None when an amplitude would leave [AMP_MIN, AMP_MAX]"""
+    f = float(2.0 ** int(t["e"]))
+    q = c0["q"]
+    kind = t["kind"]
+    fin = [1.0] * q
+    if kind == "one_input":
+        fin[int(t["j"])] = f
+    elif kind in ("all_inputs", "all_channels"):
+        fin = [f] * q
+    fout = f if kind in ("output", "all_channels") else 1.0
+    xs = [np.asarray(v, dtype=float) * fi for v, fi in zip(c0["xs"], fin)]
+    y = np.asarray(c0["y"], dtype=float) * fout
+    coeffs = list(c0["coeffs"])
+    if t.get("comp"):
+        # the exact combination at another scale than the scaled channels: inputs scaled -> output of the ORIGINAL size; output kind -> an exact
+        # combination of the size of the SCALED output built from the unscaled inputs  (power-of-two factors: the coefficients stay exact)
+        coeffs = [cj / fi for cj, fi in zip(coeffs, fin)] if kind in ("one_input", "all_inputs") else [cj * fout for cj in coeffs]
+    ye = sum(cj * xj for cj, xj in zip(coeffs, xs))
+    for v in xs + [y, ye]:
+        m = float(np.max(np.abs(v))) if len(v) else 0.0
+        if not (m <= AMP_MAX and (m >= AMP_MIN or m == 0.0)):
+            return None
+    c = dict(c0)
+    c.update({"xs": xs, "y": y, "coeffs": coeffs, "units_t": dict(t), "coupling": c0["coupling"] + "|" + units_tag(t), "_fout": fout})
+    return c
+
+
+def units_plan(rng, q: int, full: bool) -> List[Dict[str, Any]]:
+    """transforms of one group: both ends of the 1e-12 .. 1e12 range for every kind, one more exponent per kind (in between, or far outside)"""
+    def extra():
+        lo, hi = (3, UNIT_E_MAIN - 1) if rng.random() < 0.5 else UNIT_E_FAR
+        return int(rng.choice([-1, 1])) * int(rng.integers(lo, hi + 1))
+    plan: List[Dict[str, Any]] = []
+    kinds = (["one_input"] if q >= 2 else []) + ["all_inputs", "output", "all_channels"]
+    for kind in kinds:
+        if kind == "one_input":
+            j = int(rng.integers(0, q))
+            es = [(-UNIT_E_ONE, j), (UNIT_E_ONE, (j + 1) % q), (int(rng.choice([-1, 1])) * int(rng.integers(2, 13)), int(rng.integers(0, q)))]
+        else:
+            es = [(-UNIT_E_MAIN, 0), (UNIT_E_MAIN, 0), (extra(), 0)]
+        if kind in ("all_channels", "one_input") and not full:
+            es = es[:2]                           # (every exponent / comp flag is drawn above whatever the tier)
+        for i, (e, j) in enumerate(es):
+            comp = bool(rng.random() < 0.5)
+            # quick tier: the exact combination at both ends of the range for the kinds that rescale one side only; the analytic solver (SymPy
+            # solve per call) on the exact combination at the lower end only
+            plan.append({"kind": kind, "j": j, "e": int(e), "comp": comp, "exact": bool(full or (i < 2 and kind != "all_channels")),
+                         "exact_analytic": bool(full or i == 0)})
+    return plan
+
+
+def units_group(ck: "Checker", c0: Dict[str, Any], plan: List[Dict[str, Any]], deadline: Optional[float] = None) -> None:
+    import time as _t
+    P = ck.P
+    q = c0["q"]
+    out0 = ck.check_case(c0, subs=("main",))
+    if out0 is None:
+        return
+    ing0, res0 = out0
+    for ti, t in enumerate(plan):
+        if deadline is not None and _t.time() > deadline:
+            P.notes.append(f"units stream: time budget reached after {ti} of {len(plan)} transforms of the q = {q} group")
+            return
+        cs = units_transform(c0, t)
+        if cs is None:
+            P.hit("units_skipped_amplitude_range")
+            continue
+        P.hit(f"units_q{q}_{t['kind']}_{'down' if t['e'] < 0 else 'up'}" + ("_far" if abs(t["e"]) > UNIT_E_MAIN else ""))
+        out = ck.check_case(cs, subs=("main", "exact") if t.get("exact", True) else ("main",),
+                            exact_solvers=None if t.get("exact_analytic", True) else ["numeric", "siso"])
+        if out is None:
+            continue
+        ings, ress = out
+        P.cases += 1
+        f2 = float(cs["_fout"]) ** 2
+        if ings.nf != ing0.nf or not np.array_equal(ings.f, ing0.f) or not np.array_equal(ings.navg, ing0.navg):
+            ck.viol(cs, "rescale", "plan", f"{units_tag(t)}: the rescaled records are analysed on another frequency plan ({ings.nf} vs {ing0.nf} bins; "
+                    "the plan depends on N, fs and the options only)")
+            continue
+        cs["_S00"] = ings.S00
+        P.unstable += int((ing0.good & ~ings.good).sum())
+        for sv in ress:
+            if sv not in res0:
+                continue
+            g = ing0.mask(sv) & ings.mask(sv)
+            if ck.cmp_power(cs, "rescale", sv, ress[sv], f2 * res0[sv], ings.B + f2 * ing0.B, g,
+                            f"({units_tag(t)}) the original records give, times {f2:.6g},"):
+                P.nontrivial.add(("rescale", sv, q, t["kind"], int(np.sign(t["e"])), abs(t["e"]) > UNIT_E_MAIN, c0["kw"].get("order", 0),
+                                  c0["kw"].get("scheduler", "vectorized_ltf")))
+        cs.pop("_S00", None)
+        if len(P.violations) >= 8:
+            return
+
+
+def units_stream(ck: "Checker", ctx, seed: int, intensive: bool) -> None:
+    import time as _t
+    P = ck.P
+    rng = np.random.default_rng(int(seed))
+    full = bool(ctx.thorough or intensive)
+    rounds = 5 if ctx.thorough else (3 if intensive else 1)
+    cap = 60.0 if ctx.thorough else (36.0 if intensive else 14.0)
+    t0 = _t.time()
+    done = 0
+    for rnd in range(rounds):
+        for q in ([1, 2, 3] if (full and rnd % 2 == 1) else [1, 2]):
+            if ctx.time_left() < 40 or _t.time() - t0 > cap:
+                P.notes.append(f"units stream: time budget reached after {done} groups")
+                return
+            c0 = build_units_case(int(rng.integers(0, 2 ** 62)), q, ctx.thorough)
+            units_fit_plan(c0)
+            plan = units_plan(rng, q, full)
+            units_group(ck, c0, plan, deadline=t0 + cap)
+            done += 1
+            if done <= 2:
+                P.sample({"op": "oracle-units", **case_desc(c0), "transforms": [units_tag(t) for t in plan]})
+            if len(P.violations) >= 8:
+                return
+    P.notes.append(f"units stream: {done} groups in {_t.time() - t0:.1f}s")
+
+
 # ------------------------------------------------------------------------------------------------ corpus: defect D14 (thorough tier)
 # D14 (fixed by /repo commit a8eaa1b "MISO_numeric caches the pairwise input spectra under unambiguous keys"): before the fix the helper get_ltf_result
 # memoised the pair (i, j) under f"T{i+1}{j+1}"; from 112 inputs on two pairs share a key ("T1112" = (1,112) = (11,12)), Tmat received the cross-spectrum
@@ -1649,6 +1863,12 @@ def oracle(ctx, intensive: bool = False, hints: List[Dict[str, Any]] = ()) -> C.
         sweep_stream(ck, ctx, int(np.random.default_rng([int(ctx.seed), 0x5EE9]).integers(0, 2 ** 62)), intensive)
     except Exception as ex:
         P.notes.append(f"option sweep aborted: {ex!r}"[:200])
+    # units stream (every channel kind rescaled by 2^-40 / 2^40 / one more exponent on every run, a few seconds): same bookkeeping as the sweep
+    try:
+        if len(P.violations) < 8:
+            units_stream(ck, ctx, int(np.random.default_rng([int(ctx.seed), 0x0C15B]).integers(0, 2 ** 62)), intensive)
+    except Exception as ex:
+        P.notes.append(f"units stream aborted: {ex!r}"[:200])
     if not ctx.thorough:
         cap_s += _t.time() - t_sw          # (thorough tier: the sweep's <= 90 s come out of the 540 s of the generated-case stream)
 
@@ -1741,6 +1961,18 @@ def replay(ctx, data) -> C.Part:
                 kw["band"] = tuple(float(t) for t in kw["band"])
             c0["kw"] = kw
             sweep_group(ck, c0, list(cd.get("group_backends") or ([be] if be else sweep_backends())), full=True)
+            continue
+        if cd.get("stream") == "units":
+            c0 = build_units_case(cd["sub_seed"], cd["q"], bool(cd.get("big", False)))
+            kw = dict(cd["kw"])
+            if "band" in kw:
+                kw["band"] = tuple(float(t) for t in kw["band"])
+            c0["kw"] = kw
+            t = cd.get("units_t")
+            cs = units_transform(c0, t) if t else c0
+            if cs is None or case_digest(cs) != cd.get("digest"):
+                P.notes.append(f"replay: regenerated records differ from the stored digest for units case {cd['sub_seed']}")
+            units_group(ck, c0, [dict(t, exact=True, exact_analytic=True)] if t else [])
             continue
         if cd["sub_seed"] == -14:
             check_d14(ck)
